@@ -102,6 +102,10 @@ def make_callable(ns, world, knobs, op):
             argv += ["--prepend", op["prepend"]]
         if op.get("imports_from_file"):
             argv += ["--imports-from-file", world.path(op["imports_from_file"])]
+        if op.get("emit_call"):
+            argv.append("--emit-call")
+        for deco in op.get("decorators") or ():
+            argv += ["--decorator", deco]
         return lambda: ns.main.main(argv)
     if kind == "cli":
         argv = [a.replace("<W>", world.root) for a in op["argv"]]
@@ -967,7 +971,8 @@ def oracles_gen(op, S0, S1, out, stats):
     if out["status"] != "ok":
         v.append(viol("C20", "O4-accepted-not-carried-out", op, "accepted gen invocation ended with %s %s at %s: %s" % (
             out["status"], out.get("exc", out.get("code")), out.get("site"), out.get("msg", "")[:160]),
-            exc=out.get("exc", "exit"), site=out.get("site"), gen_type=op["type"], imports=bool(op.get("imports_from_file"))))
+            exc=out.get("exc", "exit"), site=out.get("site"), gen_type=op["type"], imports=bool(op.get("imports_from_file")),
+            emit_call=True if op.get("emit_call") else None, decorators=len(op["decorators"]) if op.get("decorators") else None))
     for f in S1:
         if f != op["output"] and S0.get(f) != S1.get(f):
             v.append(viol("C20", "O1-gen-touched-other-file", op, "gen modified %s" % f, gen_type=op["type"]))
